@@ -77,7 +77,8 @@ def gen_tree(rng, depth, fam, uni, labs, want_model):
         return {"t": "neg", "a": gen_tree(rng, depth - 1, fam, uni, labs, True)}
     if r < 0.94:
         return {"t": "pow", "ip": rng.random() < 0.4, "a": gen_tree(rng, depth - 1, fam, uni, labs, True),
-                "n": rng.choice([1, 2, 2, 3, 0, -1]) if rng.random() < 0.9 else 4}
+                "n": rng.choice([1, 2, 2, 3, 0, -1]) if rng.random() < 0.9 else
+                     (rng.choice([4, 5, 6, 7, 8, 10]) if depth <= 1 else 4)}      # high powers of leaves only (size)
     c = G.coef(rng)
     return {"t": "div", "ip": rng.random() < 0.4, "a": gen_tree(rng, depth - 1, fam, uni, labs, True),
             "c": [c.numerator, c.denominator]}
